@@ -45,6 +45,70 @@ class K:
         self.name = f"{crate}::{harness}"
 
 
+class SmtTopicName:
+    """C07: the source->SMT encoder of engines/smt/topic_name.py as one obligation."""
+    kind = "smt"
+    crate = None
+    expect = "pass"
+
+    def __init__(self, tiers=("quick", "thorough"), timeout=900, cross=False, name="smt::topic_name", mem_gb=6):
+        self.tiers, self.timeout, self.cross, self.name, self.mem_gb = tiers, timeout, cross, name, mem_gb
+        self.harness = name
+        self.bounds = ""
+        self.what = "TopicName::{try_from,is_valid,create,Display} re-encoded from source; 10 unsat queries + 3 sat witnesses"
+
+    def run(self, workroot, tier, budget):
+        sys.path.insert(0, os.path.join(VERIF, "engines", "smt"))
+        import importlib
+        import topic_name
+        importlib.reload(topic_name)
+        t0 = time.time()
+        got = budget.acquire(self.mem_gb)
+        try:
+            r = topic_name.analyse(timeout=self.timeout, cross=self.cross, jobs=8, dump=os.path.join(workroot, "smt2"))
+        finally:
+            budget.release(got)
+        res = {"name": self.name, "kind": "smt", "bounds": json.dumps(r.get("bound", {})), "what": self.what, "expect": "pass",
+               "status": {"pass": "pass", "failed": "failed"}.get(r["status"], "inconclusive"), "reason": r.get("reason", ""),
+               "checks": sum(1 for q in r["queries"] if not q.get("is_witness") and q["result"] == "unsat"),
+               "covers": {q["name"] + ": " + q["desc"]: q["result"] == "sat" for q in r["queries"] if q.get("is_witness")},
+               "failed": [], "wall_s": time.time() - t0, "solver_s": sum(x["time_s"] for q in r["queries"] for x in q["solvers"].values()),
+               "functions": r.get("functions", []), "stubs": [], "detail": {"queries": [{k: q[k] for k in ("name", "desc", "result", "solvers", "smt_assertions")} for q in r["queries"]], "static": r.get("static")},
+               "violations": []}
+        for q in r["queries"]:
+            if q.get("is_witness") or q["result"] != "sat":
+                continue
+            sig = {"harness": self.name, "file": "protocol/src/topic_name.rs", "function": "TopicName", "line": "", "class": q["name"],
+                   "description": q["desc"] + " -- witness " + json.dumps(q.get("witness")), "property": q["name"]}
+            path, rep, tail = smt_replay("C07", q, topic_name.REPLAY_TEMPLATE)
+            res["violations"].append({"sig": sig, "reproduced": rep, "replay": path, "detail": tail})
+        return res
+
+
+def smt_replay(prop, q, template, path=None):
+    """Compile + run the generated witness program against /repo's selium-protocol."""
+    os.makedirs(os.path.join(VERIF, "replays"), exist_ok=True)
+    if path is None:
+        path = os.path.join(VERIF, "replays", f"{prop}-{q['name']}.rs")
+        src = template.format(query=q["name"], desc=q["desc"].replace("{", "(").replace("}", ")"), expect=q["expect"], chars="vec!" + json.dumps(q["witness_codepoints"]) + ".iter().map(|c: &u32| *c).collect::<Vec<u32>>()", j=q.get("witness_j", 0))
+        src = f"// Replay: /verif/check {prop} --replay {path}\n" + src
+        open(path, "w").write(src)
+    wd = os.path.join(SCRATCH, f"replay-c07-{os.getpid()}-{threading.get_ident()}")
+    shutil.rmtree(wd, ignore_errors=True)
+    shutil.copytree(os.path.join(VERIF, "engines", "smt", "replay-c07"), wd, ignore=shutil.ignore_patterns("target"))
+    if os.path.exists("/repo/Cargo.lock"):
+        shutil.copy("/repo/Cargo.lock", os.path.join(wd, "Cargo.lock"))
+    shutil.copy(path, os.path.join(wd, "src", "main.rs"))
+    old = kplus.ENV
+    kplus.ENV = dict(old, CARGO_TARGET_DIR=os.path.join(CACHE, "target-replay-c07"))
+    try:
+        rc, out, _ = kplus.run(["cargo", "run", "--offline", "--quiet"], 1200, cwd=wd)
+    finally:
+        kplus.ENV = old
+    shutil.rmtree(wd, ignore_errors=True)
+    return path, (rc == 1 and "REPRODUCED" in (out or "")), "\n".join((out or "").splitlines()[-12:])
+
+
 class Budget:
     def __init__(self, total):
         self.total, self.used, self.cv = total, 0, threading.Condition()
@@ -173,7 +237,8 @@ def write_replay(prop, tier, ob, sig, vals, modfile):
     os.makedirs(os.path.join(VERIF, "replays"), exist_ok=True)
     hname = ob.harness.split("::")[-1]
     test = f"kani_concrete_playback_{hname}"
-    path = os.path.join(VERIF, "replays", f"{prop}-{hname}.rs")
+    tagh = hashlib.sha1((sig["file"] + sig["function"] + sig["class"] + sig["description"]).encode()).hexdigest()[:6]
+    path = os.path.join(VERIF, "replays", f"{prop}-{hname}-{tagh}.rs")
     meta = {"crate": ob.crate, "harness": ob.harness, "modfile": modfile, "test": test, "expect_message": sig["description"]}
     body = PLAYBACK_HDR.format(harness=ob.harness, crate=ob.crate, desc=sig["description"], file=sig["file"], line=sig["line"],
                                function=sig["function"], prop=prop, tier=tier, path=path, modfile=modfile, test=test,
@@ -195,9 +260,10 @@ def run_playback(path, keep=False):
     wd = os.path.join(SCRATCH, f"replay-{crate}-{os.getpid()}-{threading.get_ident()}")
     shutil.rmtree(wd, ignore_errors=True)
     shutil.copytree(os.path.join(KANI_DIR, crate), wd, ignore=shutil.ignore_patterns("target"))
-    common = os.path.join(KANI_DIR, "common")
-    if os.path.isdir(common):
-        shutil.copytree(common, os.path.join(os.path.dirname(wd), "common"), dirs_exist_ok=True)
+    for shared in ("common", "shims"):       # relative path dependencies of the harness crates
+        src_dir = os.path.join(KANI_DIR, shared)
+        if os.path.isdir(src_dir):
+            shutil.copytree(src_dir, os.path.join(os.path.dirname(wd), shared), dirs_exist_ok=True, ignore=shutil.ignore_patterns("target", "Cargo.lock"))
     if os.path.exists("/repo/Cargo.lock"):
         shutil.copy("/repo/Cargo.lock", os.path.join(wd, "Cargo.lock"))
     mf = os.path.join(wd, meta["modfile"])
@@ -260,7 +326,7 @@ def check(prop, tier, seed, only=None, keep=False, jobs=0):
             try:
                 pre = getattr(registry, "PREPARE", {}).get(crate)
                 crate_dir = pre(workroot) if pre else os.path.join(KANI_DIR, crate)
-                m, w = kplus.codegen(crate_dir, os.path.join(CACHE, f"target-{crate}"), log)
+                m, w = kplus.codegen(crate_dir, os.path.join(CACHE, f"target-{crate}"), log, harnesses=[o.harness for o in kani_obs if o.crate == crate])
                 build_s += w
                 metas[crate] = m
                 say(f"[build] {crate}: {len(m)} harnesses compiled from /repo working tree in {w:.0f}s")
@@ -435,6 +501,14 @@ def write_evidence_file(prop, tier, seed, spec, results, known_hits, violations,
 
 
 def replay(prop, path):
+    if "generated by /verif/engines/smt/topic_name.py" in open(path).read():
+        _, rep, tail = smt_replay(prop, None, None, path=path)
+        say(tail)
+        if rep:
+            say(f"VIOLATION property={prop} replay={path}")
+            return 1
+        say("replay did not reproduce a failure on the current tree")
+        return 0
     dev, rel, tail = run_playback(path)
     say(tail)
     if dev or rel:
